@@ -177,6 +177,14 @@ def query(model, naming, gone=()):
         cl[k] = [cid.get(id(c), 0) for c in _call(errors, meth, getattr(model, meth), [])]
     ret['ctclists'] = cl
     ret['ctc'] = [classify(c, naming) for c in model.ctcs]
+    # get_new_ctc_name: a name with the given prefix that no constraint of the model carries
+    from flamapy.metamodels.fm_metamodel.models.feature_model import get_new_ctc_name
+    cnames = [c.name for c in model.ctcs]
+    ret['newnames'] = []
+    for prefix in ['c', 'c1', 'CTC'] + cnames[:2]:
+        before = list(cnames)
+        got = _call(errors, 'get_new_ctc_name', lambda: get_new_ctc_name(cnames, prefix), '')
+        ret['newnames'].append({'prefix': prefix, 'got': got if isinstance(got, str) else '?obj', 'pure': cnames == before})
     ret['errors'] = errors
     post2, anom2 = project(model, naming)
     return {'a': 'Query', 'args': {}, 'out': 'value', 'post': post, 'anom': pj.anom,
@@ -441,7 +449,11 @@ def _cmp(errors, label, x, y):
     hx = _call(errors, label + '.hash', lambda: hash(x), 0)
     hy = _call(errors, label + '.hash', lambda: hash(y), 1)
     rx = _bool(errors, label + '.refl', _call(errors, label + '.refl', lambda: x == x and y == y, False))
-    return {'eq': eq, 'qe': qe, 'ne': ne, 'h': hx == hy, 'refl': rx}
+    lt = gt = False
+    if label != 'model':      # features, relations and constraints are ordered (sorted() is how equality ignores order)
+        lt = _bool(errors, label + '.lt', _call(errors, label + '.lt', lambda: x < y, False))
+        gt = _bool(errors, label + '.gt', _call(errors, label + '.gt', lambda: y < x, False))
+    return {'eq': eq, 'qe': qe, 'ne': ne, 'h': hx == hy, 'refl': rx, 'lt': lt, 'gt': gt}
 
 
 def compare(a, b, naming, how, edit):
